@@ -749,7 +749,28 @@ var persistNameAtoms = []string{
 var persistReservedish = []string{"CON", "con", "Con", "cOn", "PRN", "prn", "AUX", "aux", "NUL", "nul", "COM0", "com1", "Com9", "COM\u00b9", "com\u00b2", "LPT0", "lpt1", "LPT9", "lpt\u00b3",
 	"CON_", "CON.", "CON.txt", "CONS", "CO", "COM", "COM10", "LPT", "NUL/", "/CON", "c\u00f6n", "\u0441on", "co\u0274", "COM\u0661", "\u017fon", "a\u0131x", "AU\u03a7"}
 
+// tmpDerivedNames: test names read off the temporary-file pattern the code uses right now - every prefix of it
+// that ends before a '-' (with and without a leading dot).  If some test name makes the fail-file glob match a
+// temporary file, it is one of these.
+func tmpDerivedNames() []string {
+	pat := strings.TrimSuffix(rapid.VerifFailfileTmpPattern(), ".fail")
+	pat = strings.TrimRight(pat, "*")
+	var out []string
+	for _, base := range []string{pat, strings.TrimLeft(pat, ".")} {
+		for i, c := range base {
+			if c == '-' && i > 0 {
+				out = append(out, base[:i])
+			}
+		}
+		out = append(out, strings.TrimRight(base, "-"))
+	}
+	return out
+}
+
 func (g *persistGen) testName() (string, string) {
+	if g.r.chance(12) {
+		return pick(g.r, tmpDerivedNames()...), "name:derived-from-tmp-pattern"
+	}
 	switch g.r.intn(10) {
 	case 0:
 		return pick(g.r, persistReservedish...), "name:reserved-ish"
